@@ -78,7 +78,7 @@ def main():
     lines = [l for l in out_c.split("\n") if l.startswith("VIOLATION") or l.startswith("KNOWN-FINDING") or " quick:" in l]
     meta["check_quick"] = {"exit": rc_c, "lines": [l[:300] for l in lines], "wall_s": round(time.time() - t0, 1)}
     meta["detected_quick"] = rc_c == 1 and any(l.startswith("VIOLATION") for l in lines)
-    if thorough or not meta["detected_quick"]:
+    if thorough or (not meta["detected_quick"] and "--no-thorough" not in sys.argv):
         t0 = time.time()
         e3 = dict(e2, VERIF_NO_COQCHK="1")
         rc_t, out_t = sh([os.path.join(V, "check"), pid, "--tier", "thorough"], cwd=V, env=e3, timeout=6000)
